@@ -89,10 +89,19 @@ Definition long_result (sp : ospec) (oa : option str) : opt * bool :=
   | Some a => (mkOpt sp false true a, false)
   end.
 
+Lemma find_ext {A} (f g : A -> bool) l : (forall x, f x = g x) -> find f l = find g l.
+Proof. intros E. induction l as [|x l IH]; simpl; [reflexivity|]. rewrite E, IH. reflexivity. Qed.
+
+Lemma find_none {A} (f : A -> bool) l : (forall x, f x = false) -> find f l = None.
+Proof. intros E. induction l as [|x l IH]; simpl; [reflexivity|]. rewrite E. exact IH. Qed.
+
+Definition long_is (name : str) (sp : ospec) : bool :=
+  negb (is_nil (s_long sp)) && str_eqb (s_long sp) name.
+
 Lemma parseLong_loop_find specs : longs_no_eq specs = true ->
   forall body name oa, split_eq body = (name, oa) ->
   parseLong_loop body (index_of EQ body) specs =
-  match find (fun sp => str_eqb (s_long sp) name) specs with
+  match find (long_is name) specs with
   | Some sp => Some (long_result sp oa)
   | None => None
   end.
@@ -100,7 +109,8 @@ Proof.
   intros Hne body name oa Hs. pose proof (split_eq_index body) as P.
   induction specs as [|sp rest IH]; [reflexivity|].
   simpl in Hne. apply andb_true_iff in Hne as [Hsp Hrest]. apply negb_true_iff in Hsp.
-  specialize (IH Hrest). simpl.
+  specialize (IH Hrest). cbn [parseLong_loop find]. unfold long_is at 1.
+  destruct (is_nil (s_long sp)) eqn:Hn; [exact IH|]. cbn [negb andb].
   destruct (index_of EQ body) as [e|] eqn:He; destruct P as [P Pc]; rewrite P in Hs; inversion Hs; subst.
   - rewrite (contains_neq _ _ Pc Hsp). rewrite (str_eqb_sym (s_long sp)).
     destruct (str_eqb (firstn e body) (s_long sp)); [reflexivity|exact IH].
@@ -108,12 +118,11 @@ Proof.
     destruct (str_eqb name (s_long sp)); [reflexivity|exact IH].
 Qed.
 
-Lemma find_empty_long_none specs :
-  forallb named_long specs = true -> find (fun sp => str_eqb (s_long sp) []) specs = None.
+Lemma find_long_is name specs : find (long_is name) specs = lookup_long name specs.
 Proof.
-  induction specs as [|sp r IH]; simpl; [reflexivity|]. intros H.
-  apply andb_true_iff in H as [H1 H2]. unfold named_long in H1.
-  destruct (s_long sp); simpl in *; [discriminate|]. auto.
+  unfold lookup_long. destruct name as [|c n]; cbn [is_nil].
+  - apply find_none. intros sp. unfold long_is. destruct (s_long sp); reflexivity.
+  - apply find_ext. intros sp. unfold long_is. destruct (s_long sp); reflexivity.
 Qed.
 
 Definition unk_result (name : str) (oa : option str) : opt * bool :=
@@ -121,53 +130,31 @@ Definition unk_result (name : str) (oa : option str) : opt * bool :=
 
 Lemma parseLong_ref specs body name oa : longs_no_eq specs = true ->
   split_eq body = (name, oa) ->
-  negb (is_nil name) || forallb named_long specs = true ->
   parseLong body specs =
   match lookup_long name specs with
   | Some sp => long_result sp oa
   | None => unk_result name oa
   end.
 Proof.
-  intros Hne Hs Hok. unfold parseLong. rewrite (parseLong_loop_find specs Hne body name oa Hs).
-  unfold lookup_long.
-  assert (F : find (fun sp => str_eqb (s_long sp) name) specs =
-              if is_nil name then None else find (fun sp => str_eqb (s_long sp) name) specs).
-  { destruct name; simpl; [|reflexivity]. simpl in Hok. apply find_empty_long_none; exact Hok. }
-  rewrite F. destruct (is_nil name) eqn:Hn.
-  - pose proof (split_eq_index body) as P. unfold unk_result, unk_long.
-    destruct (index_of EQ body); destruct P as [P _]; rewrite P in Hs; inversion Hs; subst; reflexivity.
-  - destruct (find _ specs); [reflexivity|].
-    pose proof (split_eq_index body) as P. unfold unk_result, unk_long.
-    destruct (index_of EQ body); destruct P as [P _]; rewrite P in Hs; inversion Hs; subst; reflexivity.
+  intros Hne Hs. unfold parseLong. rewrite (parseLong_loop_find specs Hne body name oa Hs).
+  rewrite find_long_is. destruct (lookup_long name specs); [reflexivity|].
+  pose proof (split_eq_index body) as P. unfold unk_result, unk_long.
+  destruct (index_of EQ body); destruct P as [P _]; rewrite P in Hs; inversion Hs; subst; reflexivity.
 Qed.
 
 (* ---------- short lookup ---------- *)
-Lemma findShort_find r specs :
-  findShort r specs = find (fun sp => N.eqb (s_short sp) r) specs.
-Proof. induction specs as [|sp rest IH]; simpl; [reflexivity|].
-  rewrite (N.eqb_sym (s_short sp)). destruct (N.eqb r (s_short sp)); auto. Qed.
-
-Lemma find_zero_short_none specs :
-  forallb named_short specs = true -> find (fun sp => N.eqb (s_short sp) 0) specs = None.
+Lemma findShort_ref r specs : findShort r specs = lookup_short r specs.
 Proof.
-  induction specs as [|sp r IH]; simpl; [reflexivity|]. intros H.
-  apply andb_true_iff in H as [H1 H2]. unfold named_short in H1. apply negb_true_iff in H1.
-  rewrite H1. auto.
+  unfold lookup_short.
+  assert (F : findShort r specs = find (fun sp => negb (N.eqb (s_short sp) 0) && N.eqb (s_short sp) r) specs).
+  { induction specs as [|sp rest IH]; simpl; [reflexivity|].
+    rewrite (N.eqb_sym (s_short sp) r).
+    destruct (negb (N.eqb (s_short sp) 0) && N.eqb r (s_short sp)); auto. }
+  rewrite F. destruct (N.eqb r 0) eqn:Hr.
+  - apply N.eqb_eq in Hr; subst. apply find_none. intros sp. destruct (N.eqb (s_short sp) 0); reflexivity.
+  - apply find_ext. intros sp. destruct (N.eqb (s_short sp) r) eqn:E; [|apply andb_false_r].
+    apply N.eqb_eq in E. subst. rewrite Hr. reflexivity.
 Qed.
-
-Lemma findShort_ref r specs :
-  negb (N.eqb r 0) || forallb named_short specs = true ->
-  findShort r specs = lookup_short r specs.
-Proof.
-  intros H. rewrite findShort_find. unfold lookup_short. destruct (N.eqb r 0) eqn:Hr; [|reflexivity].
-  apply N.eqb_eq in Hr; subst. simpl in H. apply find_zero_short_none; exact H.
-Qed.
-
-(* no item of the defect classes: an unknown option with the "no name" name
-   while some spec has no such name *)
-Definition pend_ok (specs : list ospec) (p : pend) : bool :=
-  match p with PUnk r _ => negb (N.eqb r 0) || forallb named_short specs | _ => true end.
-
 
 Definition pend_opts (p : pend) : list opt * bool :=
   match p with
@@ -177,24 +164,17 @@ Definition pend_opts (p : pend) : list opt * bool :=
   | PUnk r a => ([unk_short r a], false)
   end.
 
-Lemma lookup_short_nonzero r specs sp : lookup_short r specs = Some sp -> N.eqb r 0 = false.
-Proof. unfold lookup_short. destruct (N.eqb r 0); [discriminate|reflexivity]. Qed.
-
 Lemma parseShort_ref specs s :
-  pend_ok specs (snd (scan_shorts specs s)) = true ->
   parseShort s specs =
   (map flag_opt (fst (scan_shorts specs s)) ++ fst (pend_opts (snd (scan_shorts specs s))),
    snd (pend_opts (snd (scan_shorts specs s)))).
 Proof.
   induction s as [|r rest IH]; [reflexivity|]. cbn [scan_shorts parseShort].
-  destruct (lookup_short r specs) as [sp|] eqn:L.
-  - rewrite findShort_ref, L by (rewrite (lookup_short_nonzero _ _ _ L); reflexivity).
-    destruct (s_arity sp) eqn:Ha.
-    + destruct (scan_shorts specs rest) as [fl p] eqn:Sc. cbn [fst snd] in *. intros Hok.
-      rewrite (IH Hok). reflexivity.
-    + intros _. destruct rest; reflexivity.
-    + intros _. cbn. rewrite andb_false_r. reflexivity.
-  - cbn [fst snd pend_ok]. intros Hok. rewrite findShort_ref, L by exact Hok. reflexivity.
+  rewrite findShort_ref. destruct (lookup_short r specs) as [sp|] eqn:L; [|reflexivity].
+  destruct (s_arity sp) eqn:Ha.
+  - destruct (scan_shorts specs rest) as [fl p] eqn:Sc. cbn [fst snd] in *. rewrite IH. reflexivity.
+  - destruct rest; reflexivity.
+  - cbn. rewrite andb_false_r. reflexivity.
 Qed.
 
 (* ---------- the fold of parse, started in any state ---------- *)
@@ -292,53 +272,47 @@ Section RunRef.
 
   Definition run_ref_at (n : nat) : Prop :=
     forall args, (length args <= n)%nat -> forall st, st_pend st = None ->
-    forallb (item_ok specs) (tokenize cv specs (st_stop st) args) = true ->
     run cfg specs st args = post cv st (tokenize cv specs (st_stop st) args).
 
   Lemma long_case n (IH : run_ref_at n) st d2 body rest :
     (length rest <= n)%nat -> body <> [] -> st_pend st = None -> st_stop st = false ->
-    forallb (item_ok specs) (tok_long cv specs d2 body rest) = true ->
     run cfg specs (after_long st (parseLong body specs)) rest =
     post cv st (tok_long cv specs d2 body rest).
   Proof.
     intros Hlen Hbody Hp Hs. unfold tok_long.
     destruct (split_eq body) as [name oa] eqn:Hsp.
     destruct (lookup_long name specs) as [sp|] eqn:L.
-    - assert (Hname : negb (is_nil name) || forallb named_long specs = true).
-      { unfold lookup_long in L. destruct (is_nil name); [discriminate|reflexivity]. }
-      rewrite (parseLong_ref specs body name oa Hnoeq Hsp Hname), L.
+    - rewrite (parseLong_ref specs body name oa Hnoeq Hsp), L.
       destruct oa as [a|]; cbn [long_result after_long].
-      + intros Hok. cbn [forallb item_ok] in Hok. rewrite post_cons by reflexivity.
+      + rewrite post_cons by reflexivity.
         cbn [item_opts item_non item_stops]. rewrite app_nil_r, orb_false_r, Hs.
         specialize (IH rest Hlen (mkSt (st_opts st ++ [mkOpt sp false true a]) (st_non st) None false) eq_refl).
-        cbn [st_stop] in IH. apply IH. exact Hok.
+        cbn [st_stop] in IH. apply IH.
       + destruct (arity_eqb (s_arity sp) ReqArg) eqn:Ha.
         * destruct rest as [|a rest'].
-          -- intros _. rewrite post_last. cbn. rewrite !app_nil_r, Hs. reflexivity.
-          -- intros Hok. cbn [forallb item_ok] in Hok. rewrite run_cons. unfold step at 1. cbn [st_pend].
+          -- rewrite post_last. cbn. rewrite !app_nil_r, Hs. reflexivity.
+          -- rewrite run_cons. unfold step at 1. cbn [st_pend].
              rewrite post_cons by reflexivity. cbn [item_opts item_non item_stops set_arg o_spec o_unknown o_long st_opts st_non st_stop].
              rewrite app_nil_r, orb_false_r, Hs.
              assert (Hl : (length rest' <= n)%nat) by (simpl in Hlen; lia).
              specialize (IH rest' Hl (mkSt (st_opts st ++ [mkOpt sp false true a]) (st_non st) None false) eq_refl).
-             cbn [st_stop] in IH. apply IH. exact Hok.
-        * intros Hok. cbn [forallb item_ok] in Hok. rewrite post_cons by reflexivity.
+             cbn [st_stop] in IH. apply IH.
+        * rewrite post_cons by reflexivity.
           cbn [item_opts item_non item_stops]. rewrite app_nil_r, orb_false_r, Hs.
           specialize (IH rest Hlen (mkSt (st_opts st ++ [mkOpt sp false true []]) (st_non st) None false) eq_refl).
-          cbn [st_stop] in IH. apply IH. exact Hok.
-    - intros Hok. cbn [forallb item_ok] in Hok. apply andb_true_iff in Hok as [Hname Hok].
-      rewrite (parseLong_ref specs body name oa Hnoeq Hsp Hname), L.
+          cbn [st_stop] in IH. apply IH.
+    - rewrite (parseLong_ref specs body name oa Hnoeq Hsp), L.
       unfold unk_result. cbn [after_long]. rewrite post_cons by reflexivity.
       rewrite orb_false_r, Hs.
       specialize (IH rest Hlen (mkSt (st_opts st ++ item_opts (ILongUnk d2 name oa)) (st_non st) None false) eq_refl).
       cbn [st_stop] in IH. cbn [item_non]. rewrite app_nil_r.
       replace [unk_long name match oa with Some a => a | None => [] end]
         with (item_opts (ILongUnk d2 name oa)) by (destruct oa; reflexivity).
-      apply IH. exact Hok.
+      apply IH.
   Qed.
 
   Lemma short_case n (IH : run_ref_at n) st body rest :
     (length rest <= n)%nat -> st_pend st = None -> st_stop st = false ->
-    forallb (item_ok specs) (tok_short cv specs body rest) = true ->
     run cfg specs
       (let '(os, need) := parseShort body specs in
        if need then mkSt (st_opts st ++ removelast os) (st_non st) (Some (last os dummy_opt)) false
@@ -349,33 +323,32 @@ Section RunRef.
     pose proof (parseShort_ref specs body) as PS.
     destruct (scan_shorts specs body) as [fl p] eqn:Sc. cbn [fst snd] in PS.
     destruct p as [|sp a|sp|r a].
-    - intros Hok. cbn [forallb item_ok] in Hok. rewrite PS by reflexivity. cbn [pend_opts fst snd].
+    - rewrite PS. cbn [pend_opts fst snd].
       rewrite post_cons by reflexivity. cbn [item_opts item_non item_stops].
       rewrite !app_nil_r, orb_false_r, Hs.
       specialize (IH rest Hlen (mkSt (st_opts st ++ map flag_opt fl) (st_non st) None false) eq_refl).
-      cbn [st_stop] in IH. apply IH. exact Hok.
-    - intros Hok. cbn [forallb item_ok] in Hok. rewrite PS by reflexivity. cbn [pend_opts fst snd].
+      cbn [st_stop] in IH. apply IH.
+    - rewrite PS. cbn [pend_opts fst snd].
       rewrite post_cons by reflexivity. cbn [item_opts item_non item_stops].
       rewrite !app_nil_r, orb_false_r, Hs.
       specialize (IH rest Hlen (mkSt (st_opts st ++ map flag_opt fl ++ [mkOpt sp false false a]) (st_non st) None false) eq_refl).
-      cbn [st_stop] in IH. apply IH. exact Hok.
-    - rewrite PS by reflexivity. cbn [pend_opts fst snd].
+      cbn [st_stop] in IH. apply IH.
+    - rewrite PS. cbn [pend_opts fst snd].
       rewrite removelast_last, last_last.
       destruct rest as [|a rest'].
-      + intros _. rewrite post_last. cbn. rewrite !app_nil_r, Hs. reflexivity.
-      + intros Hok. cbn [forallb item_ok] in Hok. rewrite run_cons. unfold step at 1. cbn [st_pend].
+      + rewrite post_last. cbn. rewrite !app_nil_r, Hs. reflexivity.
+      + rewrite run_cons. unfold step at 1. cbn [st_pend].
         rewrite post_cons by reflexivity.
         cbn [item_opts item_non item_stops set_arg o_spec o_unknown o_long st_opts st_non st_stop].
         rewrite !app_nil_r, orb_false_r, Hs, <- app_assoc.
         assert (Hl : (length rest' <= n)%nat) by (simpl in Hlen; lia).
         specialize (IH rest' Hl (mkSt (st_opts st ++ map flag_opt fl ++ [mkOpt sp false false a]) (st_non st) None false) eq_refl).
-        cbn [st_stop] in IH. apply IH. exact Hok.
-    - intros Hok. cbn [forallb item_ok] in Hok. apply andb_true_iff in Hok as [Hr Hok].
-      rewrite PS by exact Hr. cbn [pend_opts fst snd].
+        cbn [st_stop] in IH. apply IH.
+    - rewrite PS. cbn [pend_opts fst snd].
       rewrite post_cons by reflexivity. cbn [item_opts item_non item_stops].
       rewrite !app_nil_r, orb_false_r, Hs.
       specialize (IH rest Hlen (mkSt (st_opts st ++ map flag_opt fl ++ [unk_short r a]) (st_non st) None false) eq_refl).
-      cbn [st_stop] in IH. apply IH. exact Hok.
+      cbn [st_stop] in IH. apply IH.
   Qed.
 
   Lemma prefix2_body w : prefix2 w && negb (str_eqb w DD) = true -> skipn 2 w <> [].
@@ -395,43 +368,42 @@ Section RunRef.
   Lemma run_ref_all n : run_ref_at n.
   Proof.
     induction n as [|n IH]; intros args Hlen st Hp.
-    - destruct args; [|simpl in Hlen; lia]. intros _. simpl. symmetry. apply post_nil. exact Hp.
-    - destruct args as [|w rest]; [intros _; simpl; symmetry; apply post_nil; exact Hp|].
+    - destruct args; [|simpl in Hlen; lia]. simpl. symmetry. apply post_nil. exact Hp.
+    - destruct args as [|w rest]; [simpl; symmetry; apply post_nil; exact Hp|].
       assert (Hl : (length rest <= n)%nat) by (simpl in Hlen; lia).
       rewrite tokenize_cons, run_cons. unfold step. rewrite Hp.
       destruct (st_stop st) eqn:Hs.
-      + intros Hok. cbn [forallb item_ok] in Hok. rewrite post_cons by reflexivity.
+      + rewrite post_cons by reflexivity.
         cbn [item_opts item_non item_stops]. rewrite app_nil_r, orb_true_r.
         specialize (IH rest Hl (mkSt (st_opts st) (st_non st ++ [w]) None true) eq_refl).
-        cbn [st_stop] in IH. apply IH. exact Hok.
+        cbn [st_stop] in IH. apply IH.
       + unfold cfg. rewrite has_dd, has_lo, has_sf. fold cv.
         destruct (cv_dd cv && str_eqb w DD) eqn:Hdd.
-        * intros Hok. cbn [forallb item_ok] in Hok. rewrite post_cons by reflexivity.
+        * rewrite post_cons by reflexivity.
           cbn [item_opts item_non item_stops]. rewrite !app_nil_r, Hs.
           specialize (IH rest Hl (mkSt (st_opts st) (st_non st) None true) eq_refl).
-          cbn [st_stop] in IH. apply IH. exact Hok.
+          cbn [st_stop] in IH. apply IH.
         * destruct (prefix2 w && negb (str_eqb w DD)) eqn:H2.
-          { intros Hok. apply (long_case n IH st true (skipn 2 w) rest Hl (prefix2_body w H2) Hp Hs Hok). }
+          { apply (long_case n IH st true (skipn 2 w) rest Hl (prefix2_body w H2) Hp Hs). }
           destruct (prefix1 w && negb (str_eqb w DD) && negb (str_eqb w D1)) eqn:H1.
           { destruct (cv_lo cv).
-            - intros Hok. apply (long_case n IH st false (skipn 1 w) rest Hl (prefix1_body w H1) Hp Hs Hok).
-            - intros Hok. apply (short_case n IH st (skipn 1 w) rest Hl Hp Hs Hok). }
-          intros Hok. cbn [forallb item_ok] in Hok. rewrite post_cons by reflexivity.
+            - apply (long_case n IH st false (skipn 1 w) rest Hl (prefix1_body w H1) Hp Hs).
+            - apply (short_case n IH st (skipn 1 w) rest Hl Hp Hs). }
+          rewrite post_cons by reflexivity.
           cbn [item_opts item_non item_stops]. rewrite app_nil_r, Hs.
           destruct (cv_sf cv); cbn [orb].
           -- specialize (IH rest Hl (mkSt (st_opts st) (st_non st ++ [w]) None true) eq_refl).
-             cbn [st_stop] in IH. apply IH. exact Hok.
+             cbn [st_stop] in IH. apply IH.
           -- specialize (IH rest Hl (mkSt (st_opts st) (st_non st ++ [w]) None false) eq_refl).
-             cbn [st_stop] in IH. apply IH. exact Hok.
+             cbn [st_stop] in IH. apply IH.
   Qed.
 
   (* the model's parser is the reference parser *)
   Lemma parse_is_ref args :
-    forallb (item_ok specs) (tokenize cv specs false args) = true ->
     parse cfg specs args = ref_parse cv specs args.
   Proof.
-    intros Hok. unfold parse, ref_parse.
-    pose proof (run_ref_all (length args) args (le_n _) st0 eq_refl Hok) as R.
+    unfold parse, ref_parse.
+    pose proof (run_ref_all (length args) args (le_n _) st0 eq_refl) as R.
     unfold run in R. rewrite R. unfold post, meaning, missing_of. reflexivity.
   Qed.
 End RunRef.
